@@ -40,6 +40,8 @@ def eval_program(arg) -> dict:
         return True
     prog, case, _rng = progrun.make_program(
         PROP, seed, stream, scratch, want_mc, mc_shape=stream // 4, accept=accept,
+        # where the multi-client port stands among (at least three) provides ports is cycled
+        mc_position=['middle', 'first', 'last'][(stream // 4) % 3] if want_mc else None,
         ref_externs=0.8 if need_ref else None, big=stream % 9 == 6)
     if need_two:
         # one semantics by explicit names, the other by 'remaining': the warm-up build spells the
